@@ -1337,7 +1337,11 @@ class PackedTensor(TensorBase, _protocols.TensorProtocol, Generic[TArrayCompatib
         """
         array = self.numpy_packed()
         # ONNX IR returns the unpacked arrays
-        return _type_casting.unpack_4bitx2(array, self.shape.numpy()).view(self.dtype.numpy())
+        if self.dtype.bitwidth == 2:
+            unpacked = _type_casting.unpack_2bitx4(array, self.shape.numpy())
+        else:
+            unpacked = _type_casting.unpack_4bitx2(array, self.shape.numpy())
+        return unpacked.view(self.dtype.numpy())
 
     def numpy_packed(self) -> npt.NDArray[np.uint8]:
         """Return the tensor as a packed array."""
